@@ -16,7 +16,7 @@ structure Extra (filed : Bool) (W : List Nat) (v : View) : Prop where
   x4 : ∀ id, v.current = some id → id ∉ v.userQ ∧ id ∉ v.resubQ
   x5 : (v.userQ ++ v.resubQ).Nodup ∧ ∀ id ∈ v.userQ ++ v.resubQ, id ∉ v.highQ
   x6 : ∀ id, v.current = some id → id ∈ v.highQ → ∀ o, v.ops.lookup id = some o → o.pubrel.isSome = true
-  x7 : ∀ id ∈ v.highQ, v.highQ.count id = 1 ∨ ∀ o, v.ops.lookup id = some o → o.pubrel.isSome = true
+  x7 : v.highQ.Nodup
   x8 : ∀ id o, v.ops.lookup id = some o → o.pubrel.isSome = true → publishQos o.packet = some 2
   x9 : v.pendingWC.Nodup
   cur : (v.state = .connected ∨ v.state = .pendingConnack) → ∀ id, v.current = some id → ∃ o, v.ops.lookup id = some o
@@ -42,13 +42,6 @@ theorem Extra.ops_change {filed : Bool} {W : List Nat} {v : View} (h : Extra fil
     x6 := fun id hc hm o' ho' => by
       obtain ⟨o, ho, hp⟩ := hb1 id o' ho' (.inl hc)
       exact hp (h.x6 id hc hm o ho)
-    x7 := fun id hi => by
-      rcases h.x7 id hi with a | a
-      · exact .inl a
-      · right
-        intro o' ho'
-        obtain ⟨o, ho, hp⟩ := hb1 id o' ho' (.inr hi)
-        exact hp (a o ho)
     cur := fun hs id hc => by
       obtain ⟨o, ho⟩ := h.cur hs id hc
       exact hfwd id o ho
@@ -89,7 +82,6 @@ theorem Extra.erase {filed : Bool} {W : List Nat} {v : View} (h : Extra filed W 
     x2 := fun i hi => ⟨(h.x2 i hi).1, fun hm => (h.x2 i hi).2.1 (hsub1 i hm), fun hm => (h.x2 i hi).2.2 (hsub2 i hm)⟩
     x3 := fun i hi => ⟨(h.x3 i hi).1, fun hm => (h.x3 i hi).2 (hsub2 i hm)⟩
     x6 := fun i hc hm x hx => h.x6 i hc hm x (hlk i x hx).2
-    x7 := fun i hi => (h.x7 i hi).elim .inl (fun a => .inr (fun x hx => a x (hlk i x hx).2))
     x8 := fun i x hx hp => h.x8 i x (hlk i x hx).2 hp
     cur := fun hh i hc => by
       obtain ⟨hv, _⟩ := hst hh
@@ -261,7 +253,7 @@ theorem Extra.pushUserBack {filed : Bool} {W : List Nat} {v : View} (h : Extra f
 
 theorem Extra.pushHigh {filed : Bool} {W : List Nat} {v : View} (h : Extra filed W v) (id : Nat) (front : Bool)
     (hf : id ∉ v.userQ ∧ id ∉ v.resubQ ∧ id ∉ v.pendingWC ∧ id ∉ vals v.pendingNonPub)
-    (h7 : id ∉ v.highQ ∨ ∀ o, v.ops.lookup id = some o → o.pubrel.isSome = true)
+    (h7 : id ∉ v.highQ)
     (h6 : v.current ≠ some id ∨ ∀ o, v.ops.lookup id = some o → o.pubrel.isSome = true)
     (hex : v.state = .pendingConnack → ∃ o, v.ops.lookup id = some o) :
     Extra filed W { v with highQ := if front then id :: v.highQ else v.highQ ++ [id] } := by
@@ -295,15 +287,10 @@ theorem Extra.pushHigh {filed : Bool} {W : List Nat} {v : View} (h : Extra filed
         · exact absurd hc b
         · exact b o ho
       · exact h.x6 i hc a o ho
-    x7 := fun i hi => by
-      by_cases hid : i = id
-      · subst hid
-        rcases h7 with b | b
-        · exact .inl (hcount_id b)
-        · exact .inr b
-      · rcases (hmem i).mp hi with a | a
-        · exact absurd a hid
-        · rw [hcount i hid]; exact h.x7 i a
+    x7 := by
+      cases front
+      · exact List.nodup_append.mpr ⟨h.x7, (List.nodup_cons.mpr ⟨List.not_mem_nil, List.nodup_nil⟩), fun a ha b hb => by rw [List.mem_singleton.mp hb]; exact fun hh => h7 (hh ▸ ha)⟩
+      · exact List.nodup_cons.mpr ⟨h7, h.x7⟩
     h1e := fun hs => by
       obtain ⟨a, b⟩ := h.h1e hs
       refine ⟨fun i hi => ?_, b⟩
@@ -368,7 +355,7 @@ theorem submit_extra (e : Engine) (p : Packet) (user : Option (Nat × Option Nat
           simp [passesPolicy_disconnect] at hpass
       simp only []
       show Extra false [] { (e.createOp (.disconnect d) user).1.view with highQ := if front then e.nextOpId :: (e.createOp (.disconnect d) user).1.highQ else (e.createOp (.disconnect d) user).1.highQ ++ [e.nextOpId] }
-      exact h1.pushHigh e.nextOpId front ⟨hfr.1, hfr.2.1, hfr.2.2.2.1, hfr.2.2.2.2.2.2⟩ (.inl hfr.2.2.1) (.inl hfr.2.2.2.2.1)
+      exact h1.pushHigh e.nextOpId front ⟨hfr.1, hfr.2.1, hfr.2.2.2.1, hfr.2.2.2.2.2.2⟩ hfr.2.2.1 (.inl hfr.2.2.2.2.1)
         (fun hs => by rw [show (e.createOp (.disconnect d) user).1.view.state = (e.createOp (.disconnect d) user).1.state from rfl, hconn] at hs; cases hs)
 
 theorem handleUser_extra (e : Engine) (u : UserEvent) (hinv : Inv e) (h : Extra false [] e.view) : Extra false [] (e.handleUser u).1.view := by
@@ -496,7 +483,7 @@ theorem internalHigh_extra (e : Engine) (p : Packet) (front : Bool) (hinv : Inv 
   simp only [Engine.enqueue, hop, Bool.false_eq_true, ↓reduceIte]
   refine ⟨_, rfl, ?_⟩
   show Extra false [] { (e.createOp p none).1.view with highQ := if front then e.nextOpId :: (e.createOp p none).1.highQ else (e.createOp p none).1.highQ ++ [e.nextOpId] }
-  exact h1.pushHigh e.nextOpId front ⟨hfr.1, hfr.2.1, hfr.2.2.2.1, hfr.2.2.2.2.2.2⟩ (.inl hfr.2.2.1) (.inl hfr.2.2.2.2.1)
+  exact h1.pushHigh e.nextOpId front ⟨hfr.1, hfr.2.1, hfr.2.2.2.1, hfr.2.2.2.2.2.2⟩ hfr.2.2.1 (.inl hfr.2.2.2.2.1)
     (fun _ => ⟨_, f6⟩)
 
 theorem blocks_false {s : PState} (h : stateBlocksAcks s = false) : s ≠ .pendingConnack ∧ s ≠ .disconnected := by
@@ -671,6 +658,8 @@ theorem handlePubrec_extra (e : Engine) (a : Ack) (hinv : Inv e) (h : Extra fals
           split
           · rename_i hq2
             split
+            · exact h
+            split
             · split
               · exact h
               · rename_i hg
@@ -692,11 +681,14 @@ theorem handlePubrec_extra (e : Engine) (a : Ack) (hinv : Inv e) (h : Extra fals
               simp only [Engine.enqueue, hop, Bool.false_eq_true, ↓reduceIte]
               show Extra false [] { (e.setOp { o with pubrel := some (.pubrel { packetId := a.packetId }) }).view with
                 highQ := if false then o.id :: e.highQ else e.highQ ++ [o.id] }
-              refine h1.pushHigh o.id false ⟨n1, n2, n3, n4⟩ (.inr ?_) (.inr ?_) (fun hs => absurd (show e.state = .pendingConnack from hs) (blocks_false (by simpa using hblk)).1)
-              · intro o2 ho2
-                have : (e.setOp { o with pubrel := some (.pubrel { packetId := a.packetId }) }).view.ops.lookup o.id = some o2 := ho2
-                rw [show (e.setOp { o with pubrel := some (.pubrel { packetId := a.packetId }) }).view.ops = (e.setOp { o with pubrel := some (.pubrel { packetId := a.packetId }) }).ops from rfl, hlook] at this
-                cases this; rfl
+              refine h1.pushHigh o.id false ⟨n1, n2, n3, n4⟩ ?_ (.inr ?_) (fun hs => absurd (show e.state = .pendingConnack from hs) (blocks_false (by simpa using hblk)).1)
+              · -- the operation holds no PUBREL yet (a second PUBREC is refused above), so it is not queued for one
+                intro hm
+                have hm' : o.id ∈ e.view.highQ := hm
+                have hk : isAckedPublish o.packet = true := by rw [hpk]; simp [isAckedPublish, hq2]
+                have := hinv.2.1.h2 o.id hm' o ho hk
+                rename_i hnone _
+                exact hnone this
               · intro o2 ho2
                 have : (e.setOp { o with pubrel := some (.pubrel { packetId := a.packetId }) }).view.ops.lookup o.id = some o2 := ho2
                 rw [show (e.setOp { o with pubrel := some (.pubrel { packetId := a.packetId }) }).view.ops = (e.setOp { o with pubrel := some (.pubrel { packetId := a.packetId }) }).ops from rfl, hlook] at this
@@ -896,7 +888,7 @@ theorem handleOpened_extra (e : Engine) (deadline : Nat) (hinv : Inv e) (h : Ext
     have hfr := fresh_after_create e p none (by simp) hinv
     obtain ⟨f1, f2, f3, f4, f5, f6⟩ := createOp_fields e p none
     have hB : Extra false [] { (e.createOp p none).1.view with highQ := if true then e.nextOpId :: (e.createOp p none).1.highQ else (e.createOp p none).1.highQ ++ [e.nextOpId] } :=
-      hA.pushHigh e.nextOpId true ⟨hfr.1, hfr.2.1, hfr.2.2.2.1, hfr.2.2.2.2.2.2⟩ (.inl hfr.2.2.1) (.inl hfr.2.2.2.2.1) (fun _ => ⟨_, f6⟩)
+      hA.pushHigh e.nextOpId true ⟨hfr.1, hfr.2.1, hfr.2.2.2.1, hfr.2.2.2.2.2.2⟩ hfr.2.2.1 (.inl hfr.2.2.2.2.1) (fun _ => ⟨_, f6⟩)
     have hC := hB.startHandshake (show (e.createOp p none).1.state = .disconnected by rw [f5]; exact hd) (by
       intro id hi
       have hq : (e.createOp p none).1.highQ = [] := by rw [f4]; exact hh0
@@ -926,22 +918,10 @@ theorem Extra.popHigh {W : List Nat} {v : View} (h : Extra false W v) (id : Nat)
     x3 := fun i hi => h.x3 i (hsub i hi)
     x5 := ⟨h.x5.1, fun i hi hm => h.x5.2 i hi (hsub i hm)⟩
     x6 := fun i hc hm => h.x6 i hc (hsub i hm)
-    x7 := fun i hi => by
-      have h7 := h.x7 i (hsub i hi)
+    x7 := by
+      have h7 := h.x7
       rw [hq] at h7
-      by_cases hid : i = id
-      · subst hid
-        rcases h7 with a | a
-        · exfalso
-          simp only [List.count_cons_self] at a
-          have : r.count i = 0 := by omega
-          exact (List.count_eq_zero.mp this) hi
-        · exact .inr a
-      · rcases h7 with a | a
-        · left
-          rw [List.count_cons_of_ne (Ne.symm hid)] at a
-          exact a
-        · exact .inr a
+      exact (List.nodup_cons.mp h7).2
     h1e := fun hs => by
       obtain ⟨a, b⟩ := h.h1e hs
       refine ⟨fun i hi => a i ?_, b⟩
@@ -1029,13 +1009,10 @@ theorem dequeue_extra (e : Engine) (all : Bool) (hb : Big [] [] e.view) (h : Ext
       have : o2 = o := by rw [show e.view.ops.lookup id = some o from ho] at ho2; cases ho2; rfl
       subst this
       exact hb.h2 id hmem o2 ho hk2
-    · have h7 := h.x7 id hmem
-      rcases h7 with c | c
-      · exfalso
-        rw [show e.view.highQ = id :: r from hq, List.count_cons_self] at c
-        have : r.count id = 0 := by omega
-        exact (List.count_eq_zero.mp this) a
-      · exact c o ho
+    · exfalso
+      have h7 := h.x7
+      rw [show e.view.highQ = id :: r from hq] at h7
+      exact (List.nodup_cons.mp h7).1 a
   · rw [hd]
     have hp : Extra false [] ({ e with resubQ := r } : Engine).view := h.popResub id r hq
     refine ⟨hp, hc, rfl, rfl, ?_⟩
@@ -1501,7 +1478,7 @@ theorem reset_extra (e : Engine) : Extra false [] e.reset.view := by
     x4 := fun id hc => by cases hc
     x5 := ⟨List.nodup_nil, fun id hi => by cases hi⟩
     x6 := fun id hc => by cases hc
-    x7 := fun id hi => by cases hi
+    x7 := List.nodup_nil
     x8 := fun id o ho => by cases ho
     x9 := List.nodup_nil
     cur := fun _ id hc => by cases hc
